@@ -45,6 +45,11 @@ def o_round(case):
     got = list(RTCMReader(io.BytesIO(want), labelmsm=lm, quitonerror=2))
     if len(got) != 1 or got[0][0] != want or got[0][1] is None or got[0][1].payload != p or pub(got[0][1]) != pub(m):
         raise Fail("reader-roundtrip", f"reader over the canonical frame gave {len(got)} results / different content (len {len(p)})")
+    # a message parsed with validation off from a frame with a stale trailer must still serialise canonically
+    stale = want[:-3] + bytes(b ^ 0x5A for b in want[-3:])
+    m4 = RTCMReader.parse(stale, validate=0, labelmsm=lm)
+    if m4.serialize() != want or m4.payload != p:
+        raise Fail("serialize-after-validate0", f"len {len(p)}: message parsed with validate=0 from a wrong-trailer frame serialises to {bytes(m4.serialize())[-3:].hex()}, canonical CRC is {want[-3:].hex()}")
     # repr
     env = {"RTCMMessage": RTCMMessage}
     try:
@@ -62,6 +67,10 @@ def o_round(case):
         cls.append("len>=256")
     if framing.frame_problem(p) is None:
         cls.append("payload-is-a-valid-frame")
+    if want[-2:] == b"\r\n":
+        cls.append("crc-ends-in-crlf")
+    if want[-3:] in (b"\0\0\0", b"\xff\xff\xff"):
+        cls.append("crc-all-zero-or-ones")
     return Res(nontrivial=n >= 256 or bool(case.get("ident")), classes=cls, evals=5)
 
 
@@ -78,6 +87,12 @@ def s_round(draw, tier):
             if target > len(p):
                 p = p + draw(st.binary(min_size=target - len(p), max_size=target - len(p)))
         return {"payload": p.hex(), "ident": c["ident"], "labelmsm": draw(st.sampled_from([1, 2]))}
+    if k == 6:
+        from pv import streams
+
+        it = draw(streams.trailer_frames())
+        f = bytes.fromhex(it["b"])
+        return {"payload": f[3:-3].hex(), "labelmsm": 1, "trailer": it["trailer"]}
     if k == 5:
         # a payload that is itself a valid frame / starts like one / contains sync-like content
         from pv import streams
@@ -97,5 +112,5 @@ def _short(c):
 
 
 SUBS = [
-    Sub("roundtrip", o_round, strategy=s_round, examples=(250, 5000), rule="length >= 256 or defined identity", need={"payload-is-a-valid-frame": 1, "len255": 1, "len256": 1, "len1023": 1, "defined": 1, "unknown": 1}, sample=_short),
+    Sub("roundtrip", o_round, strategy=s_round, examples=(250, 5000), rule="length >= 256 or defined identity", need={"crc-ends-in-crlf": 1, "crc-all-zero-or-ones": 1, "payload-is-a-valid-frame": 1, "len255": 1, "len256": 1, "len1023": 1, "defined": 1, "unknown": 1}, sample=_short),
 ]
